@@ -30,6 +30,12 @@ func migrateTo8(diskConf yobj) (err error) {
 	}
 
 	delete(dns, "bind_host")
+	if bindHost == "" {
+		// An empty value, like an absent one, has meant the default address,
+		// while an empty address in the new list is an error.
+		return nil
+	}
+
 	dns["bind_hosts"] = yarr{bindHost}
 
 	return nil
